@@ -1008,6 +1008,40 @@ func genAll(c *h.Ctx) {
 	for _, t := range []string{"nope", "TypeError: x", "%s", "%d%", "Error", "a b"} {
 		c.Add("emsg engine nonfn "+optTok(t), "emsg:engine")
 	}
+	// (3d) every kind of thrown value, uncaught, through every user of catchPanic and out of built-in callbacks / finally
+	thrown := []struct{ kind, text, expr string }{
+		{"p", "5", "5"}, {"p", "-0.5", "-0.5"}, {"p", "NaN", "NaN"}, {"p", "abc", "'abc'"}, {"p", "", "''"}, {"p", "true", "true"}, {"p", "false", "false"},
+		{"p", "null", "null"}, {"p", "undefined", "undefined"}, {"p", "Error: not an error object", "'Error: not an error object'"},
+		{"o", "[object Object]", "({})"}, {"o", "T", "({toString: function(){ return 'T'; }})"}, {"o", "[object Object]", "({name: 'N', message: 'M'})"},
+		{"o", "N: M", "(function(){ var o = Object.create(Error.prototype); o.name = 'N'; o.message = 'M'; return o; })()"},
+		{"o", "Error", "Object.create(Error.prototype)"}, {"o", "RangeError: M", "(function(){ var o = Object.create(RangeError.prototype); o.message = 'M'; return o; })()"},
+		{"o", "function f(){}", "function f(){}"}, {"o", "1,2", "[1, 2]"}, {"o", "", "[]"}, {"o", "/a/g", "/a/g"}, {"o", "[object Math]", "Math"},
+		{"o", "7", "new Number(7)"}, {"o", "s", "new String('s')"}, {"o", "[object Arguments]", "(function(){ return arguments; })()"},
+		{"c", "Error", "Error.prototype"},
+	}
+	for _, ct := range errCtors {
+		if ct != "Error" {
+			thrown = append(thrown, struct{ kind, text, expr string }{"c", ct, ct + ".prototype"})
+		}
+		thrown = append(thrown, struct{ kind, text, expr string }{"i:" + ct + ":" + optTok("m"), "-", "new " + ct + "('m')"})
+		thrown = append(thrown, struct{ kind, text, expr string }{"i:" + ct + ":-", "-", "new " + ct + "()"})
+	}
+	for _, via := range []string{"run", "runthrow", "eval", "ocall", "onew", "vcall", "objcall", "objget", "objset", "tostring", "tofloat", "tointeger", "marshal", "export",
+		"sort", "replace", "tojson", "getter", "foreach", "finally", "nestedfinally", "rethrow"} {
+		for _, th := range thrown {
+			t := "-"
+			if th.text != "-" || !strings.HasPrefix(th.kind, "i:") {
+				t = optTok(th.text)
+			}
+			c.Add(fmt.Sprintf("uthrow %s %s %s@%s", via, th.kind, t, hx(th.expr)), "uthrow:"+via)
+		}
+	}
+	// (3e) positions through a file set of two files: every idx
+	for _, pair := range [][2]string{{"var a = 1;\nvar b = 2;", "x;\ny;"}, {"a", "b"}, {"", "zz\n"}, {"q\r\nw", ""}, {"1\n2\n3", "4\u20285"}} {
+		for idx := -1; idx <= len(pair[0])+len(pair[1])+4; idx++ {
+			c.Add(fmt.Sprintf("fspos %s %s %d", hx(pair[0]), hx(pair[1]), idx), "fspos")
+		}
+	}
 	for _, k := range []string{"undef", "null", "num", "str", "bool", "obj", "objn", "objm", "objnm", "obje"} {
 		c.Add("etostr "+k, "etostr")
 	}
